@@ -103,6 +103,8 @@ EventOK(e) ==
   ELSE /\ (e.e = "Gen" /\ "t" \in DOMAIN e) => GenOKEvent(e)
        /\ e.e = "Setup" => SetupOKEvent(e)
        /\ e.e # "Crash"
+       /\ (e.e \in {"Gen", "Setup"} /\ "cg" \in DOMAIN e /\ ~e.cg /\ Own(e) /\ Coincidence(EV(e), e.t)) =>
+             PrintT(ToJson([kind |-> "coincidence", cls |-> e.cls, e |-> e.e, t |-> e.t]))
        /\ WantsCat(e) => CatLine(e)
 Step ==
   /\ l <= Len(TraceLog)
